@@ -15,6 +15,8 @@ for path in sorted(glob.glob(os.path.join(ROOT, "sanity", "*.diff")) + glob.glob
         continue
     key = os.path.basename(path).split("-")[1] if "/sanity/" in path else os.path.basename(os.path.dirname(path))
     props = EXPECT.get(key)
+    if props is None and os.path.basename(path).startswith("hand-"):
+        props = [os.path.basename(path)[:-5].split("-")[-1]]
     if props is None:
         meta = os.path.join(os.path.dirname(path), "meta.json")
         props = json.load(open(meta)).get("checks", [json.load(open(meta))["property"]]) if os.path.exists(meta) else []
